@@ -695,6 +695,30 @@ where
     }
 }
 
+#[cfg(feature = "verif-hooks")]
+impl<TNodeId, TVal> KBucket<TNodeId, TVal>
+where
+    TNodeId: Clone,
+    TVal: Eq,
+{
+    /// Verification hook: the key of the pending node, if any.
+    pub fn verif_pending_key(&self) -> Option<&Key<TNodeId>> {
+        self.pending.as_ref().map(|p| &p.node.key)
+    }
+
+    /// Verification hook: the value of `first_connected_pos`.
+    pub fn verif_first_connected_pos(&self) -> Option<usize> {
+        self.first_connected_pos
+    }
+
+    /// Verification hook: makes the pending node (if any) eligible for insertion now.
+    pub fn verif_force_pending_ready(&mut self) {
+        if let Some(pending) = self.pending.as_mut() {
+            pending.set_ready_at(Instant::now());
+        }
+    }
+}
+
 impl<TNodeId: std::fmt::Debug, TVal: Eq + std::fmt::Debug> std::fmt::Debug
     for KBucket<TNodeId, TVal>
 {
